@@ -1,7 +1,8 @@
 //! C16 observations: a call sequence against the REAL containers
 //! (`toml_edit::{Table, InlineTable, Array, ArrayOfTables}` and `toml::map::Map`).
 //!
-//! `ops <kind> <oplist>`; kind in table | inline | inline_tl | array | aot | map_sorted | map_ordered.
+//! `ops <kind> <oplist>`; kind in table | inline | inline_tl | array | aot | map_sorted | map_ordered,
+//! plus the kinds only the python oracle judges: table_tl (a Table through `dyn TableLike`) and doc (see `doc_op`).
 //! oplist: ops joined by `;`, fields of an op joined by `,` (see lib/props/c16.py for the table).
 //! Output: `<out1>;<out2>;...|<observation after the last call>`; a panic inside one call is
 //! caught and printed as `P` for that call (the container is used on afterwards).
@@ -186,6 +187,22 @@ fn table_op(t: &mut Table, f: &[&str]) -> String {
             "u".into()
         }
         "into" => list(t.clone().into_iter().map(|(k, i)| format!("{}={}", k, show_item(&i))).collect()),
+        // ---- judged by the python reference only (lib/props/c16.py ORACLE_ONLY) ----
+        "entf" => show_item(t.entry_format(&toml_edit::Key::new(k())).or_insert(p())),
+        "eoiw" => show_item(t.entry(k()).or_insert_with(p)),
+        "ekey" => t.entry(k()).key().to_string(),
+        "emut" => match t.entry(k()) {
+            Entry::Occupied(mut e) => {
+                let k1 = e.key().to_string();
+                let key = format!("{}/{}", k1, e.key_mut().get());
+                *e.get_mut() = p();
+                let r = e.into_mut();
+                format!("occ:{}:{}", key, show_item(r))
+            }
+            Entry::Vacant(e) => format!("vac:{}", e.key()),
+        },
+        "intor" => list((&*t).into_iter().map(|(k, i)| format!("{}={}", k, show_item(i))).collect()),
+        "gv" => t.get_values().len().to_string(),
         _ => "na".into(),
     }
 }
@@ -281,6 +298,27 @@ fn inline_op(item: &mut Item, f: &[&str]) -> String {
             "u".into()
         }
         "into" => list(inl(item).clone().into_iter().map(|(k, v)| format!("{}={}", k, show_value(&v))).collect()),
+        // ---- judged by the python reference only ----
+        "entf" => show_value(inl(item).entry_format(&toml_edit::Key::new(k())).or_insert(p())),
+        "eoiw" => show_value(inl(item).entry(k()).or_insert_with(p)),
+        "ekey" => inl(item).entry(k()).key().to_string(),
+        "emut" => match inl(item).entry(k()) {
+            InlineEntry::Occupied(mut e) => {
+                let k1 = e.key().to_string();
+                let key = format!("{}/{}", k1, e.key_mut().get());
+                *e.get_mut() = p();
+                let r = e.into_mut();
+                format!("occ:{}:{}", key, show_value(r))
+            }
+            InlineEntry::Vacant(e) => format!("vac:{}", e.key()),
+        },
+        "intor" => list((&*inl(item)).into_iter().map(|(k, v)| format!("{}={}", k, show_value(v))).collect()),
+        // IndexMut of the inline table itself: panics on a missing key
+        "idxmi" => {
+            inl(item)[k()] = p();
+            "u".into()
+        }
+        "gv" => inl(item).get_values().len().to_string(),
         _ => "na".into(),
     }
 }
@@ -351,8 +389,30 @@ fn tl_op(item: &mut Item, f: &[&str]) -> String {
             "u".into()
         }
         "ioi" => show_item(item[k()].or_insert(p())),
+        // ---- judged by the python reference only ----
+        "gv" => tl(item).get_values().len().to_string(),
+        "fmt" => {
+            tl(item).fmt();
+            "u".into()
+        }
+        "dot" => tl(item).is_dotted().to_string(),
         _ => "na".into(),
     }
+}
+
+/// a standard Table seen through `dyn TableLike` (kind table_tl: the same calls as inline_tl)
+fn ttl_obs(item: &mut Item) -> String {
+    let print = util::hex(item.as_table().expect("table").to_string().as_bytes());
+    let t = tl(item);
+    format!(
+        "len={} emp={} iter={} get={} ck={} print={}",
+        t.len(),
+        t.is_empty(),
+        list(t.iter().map(|(k, i)| format!("{}={}", k, show_item(i))).collect()),
+        list(ALPHABET.iter().map(|k| format!("{}:{}", k, show_opt(t.get(k), show_item))).collect()),
+        list(ALPHABET.iter().map(|k| format!("{}:{}", k, t.contains_key(k))).collect()),
+        print
+    )
 }
 
 fn tl_obs(item: &mut Item) -> String {
@@ -376,9 +436,10 @@ type TMap = toml::map::Map<String, toml::Value>;
 
 fn tvalue_of(p: Pay) -> toml::Value {
     match p {
-        Pay::Int(z) => toml::Value::Integer(z),
-        Pay::Tab => toml::Value::Table(TMap::new()),
-        Pay::Inl => toml::Value::Array(Vec::new()),
+        // through the `From` impls of toml::Value (i64, BTreeMap, Vec)
+        Pay::Int(z) => toml::Value::from(z),
+        Pay::Tab => toml::Value::from(std::collections::BTreeMap::<String, toml::Value>::new()),
+        Pay::Inl => toml::Value::from(Vec::<toml::Value>::new()),
     }
 }
 fn show_tvalue(v: &toml::Value) -> String {
@@ -455,6 +516,59 @@ fn map_op(m: &mut TMap, f: &[&str]) -> String {
             "u".into()
         }
         "into" => list(m.clone().into_iter().map(|(k, v)| format!("{}={}", k, show_tvalue(&v))).collect()),
+        // ---- judged by the python reference only ----
+        "eoiw" => show_tvalue(m.entry(k()).or_insert_with(p)),
+        "ekey" => m.entry(k()).key().to_string(),
+        "emut" => match m.entry(k()) {
+            E::Occupied(mut e) => {
+                let key = e.key().to_string();
+                *e.get_mut() = p();
+                let r = e.into_mut();
+                format!("occ:{}:{}", key, show_tvalue(r))
+            }
+            E::Vacant(e) => format!("vac:{}", e.key()),
+        },
+        "intor" => list((&*m).into_iter().map(|(k, v)| format!("{}={}", k, show_tvalue(v))).collect()),
+        "intom" => list((&mut *m).into_iter().map(|(k, v)| format!("{}={}", k, show_tvalue(v))).collect()),
+        "cap" => {
+            *m = TMap::with_capacity(ix(f[1]));
+            "u".into()
+        }
+        // the map seen as a toml::Value::Table: Value::get / get_mut / as_table_mut / Index
+        "vget" => {
+            let v = toml::Value::Table(m.clone());
+            // (the remaining `From` impls of toml::Value build the same values)
+            let froms = toml::Value::from(std::collections::HashMap::<String, toml::Value>::new()) == toml::Value::Table(TMap::new())
+                && toml::Value::from("s").as_str() == Some("s");
+            format!(
+                "{}/{}{}",
+                show_opt(v.get(k()), show_tvalue),
+                show_opt(v.as_table().and_then(|t| t.get(k())), show_tvalue),
+                if froms { "" } else { "/BAD" }
+            )
+        }
+        // the values as a toml::Value::Array: as_array_mut, Index / IndexMut<usize>
+        "varr" => {
+            let mut v = toml::Value::Array(m.values().cloned().collect());
+            v.as_array_mut().expect("array").reverse();
+            if !m.is_empty() {
+                v[0] = p();
+            }
+            list((0..m.len()).map(|i| show_tvalue(&v[i])).collect())
+        }
+        "vset" => {
+            let mut v = toml::Value::Table(std::mem::take(m));
+            let r = match v.get_mut(k()) {
+                Some(slot) => {
+                    *slot = toml::Value::Boolean(true);
+                    v[k()] = p();
+                    show_tvalue(&v[k()])
+                }
+                None => "none".into(),
+            };
+            *m = std::mem::take(v.as_table_mut().expect("table"));
+            r
+        }
         _ => "na".into(),
     }
 }
@@ -566,6 +680,7 @@ fn array_op(item: &mut Item, f: &[&str]) -> String {
             "u".into()
         }
         "into" => list(arr(item).clone().into_iter().map(|v| show_elem(&v)).collect()),
+        "intor" => list((&*arr(item)).into_iter().map(show_elem).collect()),
         // Item-level `usize` index
         "idx" => show_elem_item(&item[ix(f[1])]),
         "iget" => show_opt(item.get(ix(f[1])), show_elem_item),
@@ -635,6 +750,9 @@ fn aot_op(item: &mut Item, f: &[&str]) -> String {
             "u".into()
         }
         "into" => list(aot(item).clone().into_iter().map(|t| show_tab(&t)).collect()),
+        "intor" => list((&*aot(item)).into_iter().map(show_tab).collect()),
+        // Display for ArrayOfTables: the array of inline tables it converts to
+        "disp" => util::hex(aot(item).to_string().as_bytes()),
         "idx" => show_elem_item(&item[ix(f[1])]),
         "iget" => show_opt(item.get(ix(f[1])), show_elem_item),
         "iset" => {
@@ -655,6 +773,379 @@ fn aot_obs(item: &mut Item) -> String {
         list(a.iter().map(show_tab).collect()),
         list((0..=n).map(|i| format!("{}:{}", i, show_opt(a.get(i), show_tab))).collect())
     )
+}
+
+// ------------------------------------------------------------------------------------------
+// kind `doc`: entry points of the editing API that no other kind reaches, on a whole `DocumentMut`
+// (judged by the python oracle only: lib/props/c16.py `doc_oracle`; the Coq driver is not asked).
+//   paths: keys / `#n` indices joined by `/` below the root (`-` = the root), walked with `Item::get_mut`
+//   payload X: i<z> | T | T1 ([x = 1]) | A | A1 ([[..]] x = 1) | N (Item::None) | I | I1 ({x = 1}) | Y ([1, "s", {}])
+// ------------------------------------------------------------------------------------------
+use toml_edit::{DocumentMut, Key};
+
+fn raw_item(x: &str) -> Item {
+    // `x = 1` through FromIterator with keys made by every `From` impl of Key (they must name the same key)
+    let one = || {
+        let keys = [
+            Key::from("x"),
+            Key::from(&String::from("x")),
+            Key::from(String::from("x")),
+            Key::from(toml_edit::InternalString::from("x")),
+        ];
+        let t: Table = keys.into_iter().map(|k| (k, toml_edit::value(1))).collect();
+        t
+    };
+    match x {
+        "T" => toml_edit::table(),
+        "T1" => Item::from(one()),
+        "A" => toml_edit::array(),
+        "A1" => {
+            let mut a = ArrayOfTables::new();
+            a.push(one());
+            Item::from(a)
+        }
+        "N" => Item::None,
+        "I" => Item::Value(Value::InlineTable(InlineTable::new())),
+        "I1" => Item::Value(Value::InlineTable(one().into_inline_table())),
+        "Y" => {
+            let mut a = Array::new();
+            // "s" through every `From` impl of Value for string types, and From<&Value>
+            let is = toml_edit::InternalString::from("s");
+            let vs = [Value::from(&is), Value::from(is.clone()), Value::from(&String::from("s")), Value::from(String::from("s")), Value::from("s")];
+            let same = vs.iter().all(|v| v.to_string() == vs[0].to_string());
+            a.push(1);
+            a.push(if same { Value::from(&vs[0]) } else { Value::from("MISMATCH") });
+            a.push(InlineTable::new());
+            Item::Value(Value::Array(a))
+        }
+        _ => Item::from(x[1..].parse::<i64>().expect("payload")),
+    }
+}
+
+fn walk<'a>(root: &'a mut Item, path: &str) -> Option<&'a mut Item> {
+    let mut cur = root;
+    if path == "-" {
+        return Some(cur);
+    }
+    for seg in path.split('/') {
+        cur = match seg.strip_prefix('#') {
+            Some(n) => cur.get_mut(n.parse::<usize>().ok()?)?,
+            None => cur.get_mut(seg)?,
+        };
+    }
+    Some(cur)
+}
+
+fn hex_text(h: &str) -> String {
+    String::from_utf8(if h == "-" { Vec::new() } else { util::unhex(h) }).expect("utf-8 text")
+}
+
+fn doc_op(d: &mut DocumentMut, f: &[&str]) -> String {
+    if f[0] == "new" {
+        *d = hex_text(f[1]).parse::<DocumentMut>().expect("valid document");
+        return "u".into();
+    }
+    if f[0] == "root" {
+        *d.as_item_mut() = raw_item(f[1]);
+        return "u".into();
+    }
+    if f[0] == "trail" {
+        d.set_trailing(hex_text(f[1]));
+        return "u".into();
+    }
+    let node = match walk(d.as_item_mut(), f[1]) {
+        Some(n) => n,
+        None => return "na".into(),
+    };
+    let flag = |s: &str| s == "1";
+    match f[0] {
+        "simp" => match node.as_table_mut() {
+            Some(t) => {
+                t.set_implicit(flag(f[2]));
+                "u".into()
+            }
+            None => "na".into(),
+        },
+        "spos" => match node.as_table_mut() {
+            Some(t) => {
+                t.set_position(f[2].parse().expect("position"));
+                "u".into()
+            }
+            None => "na".into(),
+        },
+        // through the trait: Table::set_dotted / InlineTable::set_dotted
+        "sdot" => match node.as_table_like_mut() {
+            Some(t) => {
+                t.set_dotted(flag(f[2]));
+                t.is_dotted().to_string()
+            }
+            None => "na".into(),
+        },
+        "kpre" => match node.as_table_like_mut().and_then(|t| t.key_mut(f[2])) {
+            Some(mut k) => {
+                k.leaf_decor_mut().set_prefix(hex_text(f[3]));
+                let d = k.dotted_decor().clone();
+                *k.dotted_decor_mut() = d;
+                "u".into()
+            }
+            None => "na".into(),
+        },
+        #[allow(deprecated)]
+        "kdecm" => match node.as_table_like_mut().and_then(|t| t.key_decor_mut(f[2])) {
+            Some(dc) => {
+                dc.set_suffix(hex_text(f[3]));
+                "u".into()
+            }
+            None => "na".into(),
+        },
+        #[allow(deprecated)]
+        "kdec" => match node.as_table_like().and_then(|t| t.key_decor(f[2])) {
+            Some(dc) => format!(
+                "{}~{}",
+                show_opt(dc.prefix().and_then(|r| r.as_str()), |s| util::hex(s.as_bytes())),
+                show_opt(dc.suffix().and_then(|r| r.as_str()), |s| util::hex(s.as_bytes()))
+            ),
+            None => "na".into(),
+        },
+        "insn" => match node.as_table_mut() {
+            Some(t) => show_opt(t.insert(f[2], Item::None), |i| show_item(&i)),
+            None => "na".into(),
+        },
+        "tlins" => match node.as_table_like_mut() {
+            Some(t) => show_opt(t.insert(f[2], raw_item(f[3])), |i| show_item(&i)),
+            None => "na".into(),
+        },
+        "tleoi" => match node.as_table_like_mut() {
+            Some(t) => show_item(t.entry(f[2]).or_insert(raw_item(f[3]))),
+            None => "na".into(),
+        },
+        "tlef" => match node.as_table_like_mut() {
+            Some(t) => show_item(t.entry_format(&Key::new(f[2])).or_insert_with(|| raw_item(f[3]))),
+            None => "na".into(),
+        },
+        // Item::or_insert on the (auto-vivified) entry
+        "oi" => {
+            if node.is_table_like() || node.is_none() {
+                show_item(node[f[2]].or_insert(raw_item(f[3])))
+            } else {
+                "na".into()
+            }
+        }
+        "intov" => {
+            let it = std::mem::take(node);
+            *node = match it.into_value() {
+                Ok(v) => Item::Value(v),
+                Err(i) => i,
+            };
+            node.type_name().into()
+        }
+        "intot" => {
+            let it = std::mem::take(node);
+            *node = match it.into_table() {
+                Ok(t) => Item::Table(t),
+                Err(i) => i,
+            };
+            node.type_name().into()
+        }
+        "intoa" => {
+            let it = std::mem::take(node);
+            *node = match it.into_array_of_tables() {
+                Ok(a) => Item::ArrayOfTables(a),
+                Err(i) => i,
+            };
+            node.type_name().into()
+        }
+        "mkval" => {
+            node.make_value();
+            node.type_name().into()
+        }
+        "afmt" => match node.as_array_mut() {
+            Some(a) => {
+                a.fmt();
+                "u".into()
+            }
+            None => "na".into(),
+        },
+        // a comparator over elements of mixed kinds (ties: elements of one kind keep their order)
+        "asort" => match node.as_array_mut() {
+            Some(a) => {
+                a.sort_by(|x, y| x.type_name().cmp(y.type_name()));
+                list(a.iter().map(|v| v.type_name().to_string()).collect())
+            }
+            None => "na".into(),
+        },
+        "apush" => match node.as_array_mut() {
+            Some(a) => match raw_item(f[2]).into_value() {
+                Ok(v) => {
+                    a.push_formatted(v);
+                    "u".into()
+                }
+                Err(_) => "na".into(),
+            },
+            None => "na".into(),
+        },
+        "pre" => match node.as_inline_table_mut() {
+            Some(t) => {
+                t.set_preamble(hex_text(f[2]));
+                "u".into()
+            }
+            None => "na".into(),
+        },
+        "atr" => match node.as_array_mut() {
+            Some(a) => {
+                a.set_trailing(hex_text(f[2]));
+                a.set_trailing_comma(flag(f[3]));
+                "u".into()
+            }
+            None => "na".into(),
+        },
+        // formatting setters (the texts handed in are white space / comments only)
+        "dec" => {
+            let (pre, suf) = (hex_text(f[2]), hex_text(f[3]));
+            match node {
+                Item::Table(t) => {
+                    *t.decor_mut() = toml_edit::Decor::new(pre, suf);
+                    "u".into()
+                }
+                Item::Value(v) => {
+                    v.decor_mut().set_prefix(pre);
+                    v.decor_mut().set_suffix(suf);
+                    "u".into()
+                }
+                _ => "na".into(),
+            }
+        }
+        "deco" => match node {
+            Item::Value(v) => {
+                *v = v.clone().decorated(hex_text(f[2]), hex_text(f[3]));
+                "u".into()
+            }
+            _ => "na".into(),
+        },
+        "dclr" => match node {
+            Item::Table(t) => {
+                t.decor_mut().clear();
+                "u".into()
+            }
+            Item::Value(v) => {
+                v.decor_mut().clear();
+                "u".into()
+            }
+            _ => "na".into(),
+        },
+        // Key::fmt / Formatted::fmt: back to the default spelling
+        "kfmt" => match node.as_table_like_mut().and_then(|t| t.key_mut(f[2])) {
+            Some(mut k) => {
+                k.fmt();
+                format!("{}~{}~{}", k.display_repr(), k.default_repr().as_raw().as_str().unwrap_or("?"), k)
+            }
+            None => "na".into(),
+        },
+        "vfmt" => match node {
+            Item::Value(Value::Integer(x)) => {
+                x.fmt();
+                x.display_repr().to_string()
+            }
+            Item::Value(Value::String(x)) => {
+                x.fmt();
+                x.display_repr().to_string()
+            }
+            Item::Value(Value::Boolean(x)) => {
+                x.fmt();
+                x.display_repr().to_string()
+            }
+            _ => "na".into(),
+        },
+        // an entry under a key with formatting of its own: Key::parse, with_leaf_decor / with_dotted_decor, insert_formatted
+        "insk" => match node.as_table_mut() {
+            Some(t) => match Key::parse(&hex_text(f[2])) {
+                Ok(mut ks) if ks.len() == 1 => {
+                    let mut k = ks.remove(0).with_leaf_decor(toml_edit::Decor::new(" ", " ")).with_dotted_decor(toml_edit::Decor::default());
+                    k.leaf_decor_mut().set_suffix("  ");
+                    k.dotted_decor_mut().clear();
+                    if f.len() > 4 {
+                        k.fmt();
+                    }
+                    show_opt(t.insert_formatted(&k, raw_item(f[3])), |i| show_item(&i))
+                }
+                Ok(ks) => format!("keys:{}", ks.len()),
+                Err(_) => "err".into(),
+            },
+            None => "na".into(),
+        },
+        "disp" => util::hex(node.to_string().as_bytes()),
+        "icl" => {
+            *node = Item::from(&*node);
+            node.type_name().into()
+        }
+        "pitem" => match hex_text(f[2]).parse::<Item>() {
+            Ok(i) => {
+                *node = i;
+                node.type_name().into()
+            }
+            Err(_) => "err".into(),
+        },
+        "aotret" => match node.as_array_of_tables_mut() {
+            Some(a) => {
+                a.retain(|t| t.contains_key(f[2]));
+                a.len().to_string()
+            }
+            None => "na".into(),
+        },
+        "aotset" => match node.as_array_of_tables_mut() {
+            Some(a) => {
+                for t in a.iter_mut() {
+                    t.insert(f[2], raw_item(f[3]));
+                }
+                if let Some(t) = a.get_mut(0) {
+                    t.remove(f[2]);
+                }
+                a.len().to_string()
+            }
+            None => "na".into(),
+        },
+        _ => "na".into(),
+    }
+}
+
+/// the tree as the `TableLike` / `Array` views show it (entries an inline table holds that are not values included);
+/// the canonical dump of verif_harness::tree plus: `N` placeholder, `Tm` / `Td` implicit / dotted table, `{~` dotted inline table
+fn show_tl(i: &Item) -> String {
+    let entries = |t: &dyn TableLike| -> String {
+        t.iter().map(|(k, i)| format!("{}={}", util::hex(k.as_bytes()), show_tl(i))).collect::<Vec<_>>().join(",")
+    };
+    match i {
+        Item::None => "N".into(),
+        Item::Value(Value::Array(a)) => list(a.iter().map(|v| show_tl(&Item::Value(v.clone()))).collect()),
+        Item::Value(Value::InlineTable(t)) => format!("{{{}{}}}", if t.is_dotted() { "~" } else { "" }, entries(t)),
+        Item::Value(v) => verif_harness::tree::show_value(v),
+        Item::Table(t) => {
+            let flags = format!("{}{}", if t.is_implicit() { "m" } else { "" }, if t.is_dotted() { "d" } else { "" });
+            format!("T{}{{{}}}", flags, entries(t))
+        }
+        Item::ArrayOfTables(a) => format!("A{}", list(a.iter().map(|t| show_tl(&Item::Table(t.clone()))).collect())),
+    }
+}
+
+fn doc_obs(d: &mut DocumentMut) -> String {
+    let guard = |f: &dyn Fn() -> String| catch_unwind(AssertUnwindSafe(f)).unwrap_or_else(|_| "P".to_string());
+    let view = guard(&|| show_tl(d.as_item()));
+    // the same tree through the inherent read API (InlineTable::iter ...)
+    let built = guard(&|| match d.as_item() {
+        Item::Table(t) => verif_harness::tree::show_table(t),
+        _ => "-".into(),
+    });
+    let text = catch_unwind(AssertUnwindSafe(|| d.to_string()));
+    match text {
+        Err(_) => format!("view={view} built={built} text=P"),
+        Ok(s) => {
+            let (parse, got) = match s.parse::<DocumentMut>() {
+                Ok(d2) => ("ok", verif_harness::tree::show_table(d2.as_table())),
+                Err(_) => ("ERR", "-".into()),
+            };
+            format!("view={view} built={built} text={} parse={parse} got={got}", util::hex(s.as_bytes()))
+        }
+    }
 }
 
 // ------------------------------------------------------------------------------------------
@@ -679,8 +1170,10 @@ fn cmd_ops(args: &Args) -> String {
         "table" => run_ops(&mut Table::new(), &ops, table_op, |t| table_obs(t)),
         "inline" => run_ops(&mut Item::Value(Value::InlineTable(InlineTable::new())), &ops, inline_op, inline_obs),
         "inline_tl" => run_ops(&mut Item::Value(Value::InlineTable(InlineTable::new())), &ops, tl_op, tl_obs),
+        "table_tl" => run_ops(&mut Item::Table(Table::new()), &ops, tl_op, ttl_obs),
         "array" => run_ops(&mut Item::Value(Value::Array(Array::new())), &ops, array_op, array_obs),
         "aot" => run_ops(&mut Item::ArrayOfTables(ArrayOfTables::new()), &ops, aot_op, aot_obs),
+        "doc" => run_ops(&mut DocumentMut::new(), &ops, doc_op, doc_obs),
         "map_sorted" if !po => run_ops(&mut TMap::new(), &ops, map_op, |m| map_obs(m)),
         "map_ordered" if po => run_ops(&mut TMap::new(), &ops, map_op, |m| map_obs(m)),
         "map_sorted" | "map_ordered" => "skip".into(),
